@@ -26,9 +26,11 @@ UNPROVED = ["O(delta) truncation error for smooth maps (search: |J - Df| <= delt
 
 MANIFEST = dict(
     text=("Theorems for every m, n >= 0, every function and every arithmetic about the Gallina model of Mat64::jacobian / "
-          "jacobian_cmplx: the result is a well-formed m x n matrix (needs the repaired set_col; the legacy setter is refuted at a "
-          "map R^3 -> R^1), the closure is called exactly at x, x+d e_0, .., x+d e_{n-1} with every coordinate restored (over a ring), "
-          "entry (i,j) is the forward quotient, and the Jacobian of x -> Mx + c is M exactly over a field. The float instance of the "
+          "jacobian_cmplx (coq/Props/C18.v): jacobian_shape -- a total map with m components yields, without panic, a well-formed m x n "
+          "matrix and n+1 calls (needs the repaired set_col; the legacy setter is refuted at a map R^3 -> R^1, Legacy/C18Refuted.v); "
+          "jacobian_calls -- over a ring the closure is called exactly at x, x+d e_0, .., x+d e_{n-1}, every coordinate restored; "
+          "jacobian_entry -- entry (i,j) is the forward quotient (f_i(x+d e_j) - f_i(x))/d; jacobian_affine -- over a field the "
+          "Jacobian of x -> Mx + c is the record M itself (d <> 0). The float instance of the "
           "same definition is run against the implementation (shape, entries, call sequence; bit-compared) on affine maps of every "
           "shape 1..6 x 1..6 with dyadic data and on smooth maps, f64 and Complex; an independent oracle (exactness on dyadic affine "
           "data, symbolic derivatives, restore discipline) searches for a failing input."),
@@ -109,7 +111,7 @@ def generate(rng, tier):
     for elt in ('f64', 'cplx'):
         for m in range(1, 7):
             for n in range(1, 7):
-                for r in range(reps):
+                for r in range(reps if (tier != "quick" or m * n <= 12) else 1):
                     cases.append(affine_case(g, elt, m, n, gen_delta(g, "dy"), True, "affine-dyadic-" + elt))
                 cases.append(affine_case(g, elt, m, n, 1e-8, False, "affine-1e-8-" + elt))
     # every dyadic step k = 4..26 at a few shapes
